@@ -170,6 +170,13 @@ class Repo:
             try:
                 self.modules[rel] = Module(rel, src)
                 if os.environ.get('SA_NO_CANON') != '1':
+                    from .canon import inline_fresh_helpers
+                    ih = inline_fresh_helpers(rel, self.modules[rel])
+                    if ih:
+                        self.modules[rel].reindex()
+                        self.helpers_inlined = getattr(self, 'helpers_inlined', {})
+                        self.helpers_inlined[rel] = ih
+                if os.environ.get('SA_NO_CANON') != '1':
                     from .canon import inline_fresh_temps
                     it = inline_fresh_temps(rel, self.modules[rel], refnames())
                     if it:
